@@ -1,27 +1,37 @@
 #!/usr/bin/env python3
 """Applies every seeded change in /verif/seeded to /repo in turn, runs the property's quick check
 (and the extra checks listed below), records which check reports it. /repo is restored after each.
-Writes /verif/seeded/RESULTS.json and RESULTS.md. Usage: run_seeded.py [name ...]"""
+Writes /verif/seeded/RESULTS.json and RESULTS.md. Usage: run_seeded.py [name ...]
+With SEEDED_TREE=<worktree of /repo at HEAD> the changes are applied to that tree instead and the checks run from a
+scratch copy of /verif (SEEDED_COPY, default /tmp/vseed) whose module points at it: /repo stays untouched, so that a
+thorough batch can run on /repo at the same time."""
 import json, os, subprocess, sys, re
 SEED = "/verif/seeded"
+TREE = os.environ.get("SEEDED_TREE", "/repo")
+COPY = os.environ.get("SEEDED_COPY", "/tmp/vseed")
+VDIR = "/verif" if TREE == "/repo" else COPY
 EXTRA = {"C09-b2": ["C14"], "C10-a3": ["C17"], "C10-w3-1": ["C17"], "C14-w8-3": ["C10"], "C10-w10-1": ["C09"], "C10-w11-1": ["C09"], "C14-w11-2": ["C08"]}  # detected by a neighbouring property's check
 TIER = {"C10-w2-3": "heavy", "C10-w3-3": "heavy", "C09-w5-3": "heavy", "C09-w7-3": "heavy", "C10-w7-3": "heavy", "C10-w8-1": "heavy", "C10-w10-1": "heavy"}  # needs a scenario that only the thorough tier draws ("heavy" = that scenario alone, 80 runs)
-def sh(cmd, cwd="/verif", timeout=3600):
+def sh(cmd, cwd=None, timeout=3600):
+    cwd = cwd or VDIR
     p = subprocess.run(cmd, cwd=cwd, shell=True, stdout=subprocess.PIPE, stderr=subprocess.STDOUT, timeout=timeout, env=dict(os.environ, VERIF_SHRINK_SECONDS="8"))
     return p.returncode, p.stdout.decode(errors="replace")
 def main():
     names = sys.argv[1:] or sorted(d for d in os.listdir(SEED) if os.path.isdir(os.path.join(SEED, d)))
-    rc, out = sh("git -C /repo status --porcelain --untracked-files=no")
+    if TREE != "/repo":
+        sh("rsync -a --delete --exclude .git --exclude bin --exclude work --exclude replays --exclude seeded /verif/ %s/" % COPY, cwd="/")
+        sh("sed -i 's#=> /repo#=> %s#' %s/sim/go.mod && sed -i 's#cp /repo/go.sum#cp %s/go.sum#' %s/check" % (TREE, COPY, TREE, COPY), cwd="/")
+    rc, out = sh("git -C %s status --porcelain --untracked-files=no" % TREE)
     if out.strip():
         print("repo dirty"); sys.exit(2)
     path = os.path.join(SEED, "RESULTS.json")
     results = json.load(open(path)) if os.path.exists(path) else {}
-    head = sh("git -C /repo rev-parse --short HEAD")[1].strip()
+    head = sh("git -C %s rev-parse --short HEAD" % TREE)[1].strip()
     for n in names:
         d = os.path.join(SEED, n)
         meta = json.load(open(os.path.join(d, "meta.json")))
         prop = meta["property"]
-        rc, out = sh("git -C /repo apply %s/patch.diff" % d)
+        rc, out = sh("git -C %s apply %s/patch.diff" % (TREE, d))
         if rc != 0:
             results[n] = {"property": prop, "applies": False, "repo_head": head, "note": out.strip()[:200]}
             print(n, "DOES NOT APPLY"); continue
@@ -37,7 +47,7 @@ def main():
             results[n] = res
             print(n, "DETECTED by " + ",".join(res["detected_by"]) if res["detected"] else "MISSED", flush=True)
         finally:
-            sh("git -C /repo checkout -- .")
+            sh("git -C %s checkout -- ." % TREE)
         json.dump(results, open(path, "w"), indent=1)
     with open(os.path.join(SEED, "RESULTS.md"), "w") as f:
         f.write("| seeded change | property | detected by (quick tier unless noted) | first violation key |\n|---|---|---|---|\n")
@@ -47,6 +57,6 @@ def main():
                 f.write("| %s | %s | (patch no longer applies) | |\n" % (n, r["property"])); continue
             keys = [k for c in r["checks"].values() for k in c["violation_keys"]]
             f.write("| %s | %s | %s | %s |\n" % (n, r["property"], ((", ".join(r["detected_by"]) + "".join(" (%s tier)" % c["tier"] for c in r["checks"].values() if c.get("tier", "quick") != "quick")) if r["detected_by"] else "**missed**"), (keys[0] if keys else "").replace("|", "\\|")))
-    sh("rm -rf /verif/replays")
+    sh("rm -rf %s/replays" % VDIR)
 if __name__ == "__main__":
     main()
